@@ -235,6 +235,8 @@ def contiguous_after_sort(paths):
     spaths = [paths[i] for i in seq]
     prefixes = set()
     for p in spaths:
+        if p[0].startswith("<"):
+            continue
         for d in range(1, len(p) + 1):
             prefixes.add(p[:d])
     for pre in prefixes:
@@ -273,7 +275,8 @@ def design_tree(r, name):
             leaves.append({"path": p, "aname": f"f{k}", "sname": f"f{k}", "ren": False, "k": k})
             k += 1
     r.shuffle(leaves)
-    if not contiguous_after_sort([l["path"] for l in leaves if True]):
+    # the code groups members by their full path; a member without #[child] is a group of its own (its name)
+    if not contiguous_after_sort([l["path"] if l["path"] else ("<" + l["sname"] + ">",) for l in leaves]):
         m.tags.append("interleaved-siblings")
     # counterpart types
     for p in sorted(paths, key=len, reverse=True):
